@@ -5,7 +5,7 @@
    c10_wf n a  :=  a has n digits, each below 2^16  (the representation invariant, itself proved
    to be preserved by every operation: the `c10_wf n (…)` conjuncts). *)
 From Coq Require Import List NArith ZArith Bool.
-From DuneV Require Import Params_gen C10_Model C10_Spec C10_Proofs C10_Proofs2.
+From DuneV Require Import Params_gen C10_Model C10_Spec C10_Proofs C10_Proofs2 C10_Proofs3.
 Import ListNotations.
 Local Open Scope N_scope.
 
@@ -322,3 +322,43 @@ Example C10_nonvacuous2 :
   c10_hash [5] = 6099401531929477805 /\ c10_ndigits 17 = 2%nat /\ c10_ndigits 16 = 1%nat.
 Proof. exact C10_nonvacuous2_proof. Qed.
 Print Assumptions C10_nonvacuous2.
+
+(* ======================= coverage-audit round: object histories ======================= *)
+
+(* ALL HISTORIES: any program over the instruction set c10_instr -- compound and binary operators with arbitrary
+   aliasing of the objects (r[d] o= r[d], r[d] = r[d] o r[d], ...), ++, ~, shifts, copies (copy/move assignment and
+   construction), swaps, built-in operands on the right (unsigned and signed) and on the left, comparisons between
+   objects and with built-ins, and steps that throw (zero divisor, negative built-in) -- run on the digit arrays
+   gives, register by register and event by event, what the same program gives on numbers modulo 2^w; the
+   representation invariant holds after every program.  Hypotheses: the representation invariant initially, fuel
+   at least 2^w (excludes OutOfFuel), built-in operands within their C++ types, >> counts below w+16. *)
+Theorem C10_histories : forall n n2 fuel prog rs ev, c10_regs_ok n rs -> Forall (c10_instr_ok n) prog -> (n <= n2)%nat ->
+  (N.to_nat (2 ^ c10_spec_width n) <= fuel)%nat ->
+  c10_regs_ok n (fst (c10_run n n2 fuel prog (rs, ev))) /\
+  c10_spec_run n prog (map c10_val rs, ev) =
+    (map c10_val (fst (c10_run n n2 fuel prog (rs, ev))), snd (c10_run n n2 fuel prog (rs, ev))).
+Proof. exact P_histories. Qed.
+Print Assumptions C10_histories.
+
+(* a step that throws leaves EVERY object unchanged (strong exception guarantee); no step changes the number of objects *)
+Theorem C10_histories_frame : forall n n2 fuel i rs ev,
+  length (fst (c10_step n n2 fuel i (rs, ev))) = length rs /\
+  (forall e, snd (c10_step n n2 fuel i (rs, ev)) = ev ++ [e] -> (forall b, e <> C10_EvBool b) ->
+     fst (c10_step n n2 fuel i (rs, ev)) = rs).
+Proof. exact P_histories_frame. Qed.
+Print Assumptions C10_histories_frame.
+
+(* every index i+m <= 2n-2 that operator*= writes in its bigunsignedint<2k> temporary exists (no out-of-bounds write for
+   any k; the truncation in the model's c10_single never drops a written digit) *)
+Theorem C10_mul_temp_indices : forall k, (2 * c10_ndigits k - 1 <= c10_ndigits (2 * k))%nat.
+Proof. exact P_mul_temp_indices. Qed.
+Print Assumptions C10_mul_temp_indices.
+
+Example C10_nonvacuous3 :
+  let prog := [C10_ICompound OpDiv 0 0; C10_IBinary OpMul 1 1 1; C10_ISwap 0 2; C10_ICompound OpMod 1 0;
+               C10_IBuiltinS OpAdd 1 (-1); C10_IBuiltinLeft OpSub 2 0; C10_ICmp CmpLt 2 2; C10_IShr 1 1 33; C10_ICopy 2 2] in
+  c10_run 2 4 (N.to_nat 70000) prog ([[7; 0]; [65535; 3]; [0; 0]], []) =
+    ([[0; 0]; [0; 0]; [65535; 65535]], [C10_EvMathError; C10_EvException; C10_EvBool false]) /\
+  c10_spec_run 2 prog ([7; 65535 + 3 * 65536; 0], []) = ([0; 0; 4294967295], [C10_EvMathError; C10_EvException; C10_EvBool false]).
+Proof. exact C10_nonvacuous3_proof. Qed.
+Print Assumptions C10_nonvacuous3.
